@@ -4,15 +4,20 @@ Real code under test: `forml.io.dsl.parser.Visitor` (`Context.Tables.select/filt
 `visit_join`, `visit_query`), `forml.io.dsl._struct.series` (`Predicate.Factors`, `And/Or/Not/Comparison.factors`) and
 `forml.provider.feed.lazy._Columns`.
 
+* the model has two variants of the parser: the code that exists and the code as repaired by
+  fixes/C14-outer-join-and-scan-segments.diff (findings C14-F1/F2); which one is under test is recognised behaviourally
+  once per run (`_probe_variant`);
 * correspondence: generated statements are parsed by a *recording* parser (a `parser.Visitor` subclass whose native
   representation is the DSL object itself) and the arguments of every `generate_table(table, features, predicate)` call
-  are compared with the model's `hints` (columns as sets, the predicate as the set of its OR-disjuncts);
+  are compared with the model's `hints` of that variant (columns as sets, the predicate as the set of its OR-disjuncts);
 * oracle 1 (columns, independent of the model): the columns each scanned origin is used with anywhere in its query
   (clauses + every join condition), computed on the AST, must be contained in the offered column set; the same for
   `lazy._Columns.extract`;
 * oracle 2 (filter, independent of the model): a real `alchemy` reader/parser subclass whose `generate_table` *honours*
   the hints (`SELECT <features> FROM <table> WHERE <predicate>`) is run on SQLite over random table contents and
   compared with the same reader ignoring them;
+* oracle 3 (contexts, independent of the model): every nested statement parsed on its own is offered the hints it is
+  offered inside the enclosing statement;
 * the model's own row-level denotation (`exec`) is tied to SQLite on the same statements and data.
 """
 from __future__ import annotations
@@ -36,12 +41,19 @@ LITS = (0, 1, 2, 3, -2)  # -1 is left out: hash(-1) == hash(-2) in CPython and D
 DOMAIN = (-2, 0, 1, 2, 3, None)
 OUTER = ('left', 'right', 'full')
 
+#: the model lines sent per statement (answers are read by position)
+MODEL_OPS = (('hints', 'current', 'strict'), ('hints', 'current', 'lenient'), ('hints', 'fixed', 'lenient'), ('lazy',),
+             ('needs',), ('uses',), ('scoped',))
+A_STRICT, A_CURRENT, A_FIXED, A_LAZY, A_NEEDS, A_USES, A_SCOPED = range(7)
+
 SIG_OUTER = 'filter-under-outer-join'
 SIG_ALIAS = 'filter-on-aliased-scan'
 SIG_FILTER = 'filter-loses-rows'
 SIG_COLS = 'columns-missing'
 SIG_LAZY = 'lazy-columns-missing'
 SIG_EVAL = 'filter-not-evaluable'
+SIG_CTX = 'hints-depend-on-another-context'
+SIG_RAISES = 'parser-raises'
 
 
 def tuplify(x):
@@ -135,16 +147,6 @@ def scans_spec(stmt) -> list:
     return out
 
 
-def outer_ancestor(src, leaf) -> bool:
-    """is some join above `leaf` in the join tree `src` an outer join?"""
-    if src[0] != 'join':
-        return False
-    for side in (src[1], src[2]):
-        if any(l is leaf or l == leaf for l in leaves(side)):
-            return src[3] in OUTER or outer_ancestor(side, leaf)
-    return False
-
-
 def contexts(stmt) -> list:
     """all query nodes of a statement (outer first)"""
     if stmt[0] == 'set':
@@ -173,6 +175,87 @@ def has_alias(stmt) -> bool:
         if any(l[0] == 'ref' and l[1][0] == 'table' and l[1][1] in direct for l in ls):
             return True
     return False
+
+
+def spec_factor_tables(pred) -> set:
+    """the directly scanned tables a condition constrains on its own, read off the property text: a comparison or a
+    negation whose elements all belong to one table constrains that table; a conjunction constrains what either side
+    constrains, a disjunction only what both sides do; anything else (a boolean column, a literal ...) nothing"""
+    if pred[0] == 'expr' and len(pred) == 4 and pred[1] == 'and':
+        return spec_factor_tables(pred[2]) | spec_factor_tables(pred[3])
+    if pred[0] == 'expr' and len(pred) == 4 and pred[1] == 'or':
+        return spec_factor_tables(pred[2]) & spec_factor_tables(pred[3])
+    if pred[0] == 'expr' and (pred[1] == 'not' or pred[1] in g.COMPARISON + g.POSTFIX):
+        origins = {o for o, _ in feat_elems(pred)}
+        if len(origins) == 1 and next(iter(origins))[0] == 'table':
+            return origins
+    return set()
+
+
+def scan_regions(stmt) -> list:
+    """per scan (order of `scans_spec`): (f1, f2) - does the scan lie in the region of finding C14-F1 (a factor of an
+    outer join's ON condition for a table the join preserves / a factor of a condition applied above an outer join for
+    a table it extends with NULLs) or C14-F2 (a table scanned through a reference for which a factor has been registered
+    in the same query by then)?  Written from the findings' text, independent of forml and of the Lean `safe`."""
+    out = []
+
+    def tree(src, pending, harmful, seen):
+        if src[0] == 'join':
+            _, left, right, kind, cond = src
+            c = [cond] if cond is not None else []
+            if kind in ('inner', 'cross'):
+                sides = ((c + pending, harmful), (c + pending, harmful))
+            elif kind == 'left':
+                sides = ((pending, harmful + c), (c, harmful + pending))
+            elif kind == 'right':
+                sides = ((c, harmful + pending), (pending, harmful + c))
+            else:
+                sides = (([], harmful + c + pending), ([], harmful + c + pending))
+            tree(left, sides[0][0], sides[0][1], c + seen)
+            tree(right, sides[1][0], sides[1][1], join_conds(left) + c + seen)
+        elif src[0] == 'table':
+            out.append((any(src in spec_factor_tables(h) for h in harmful), False))
+        elif src[0] == 'ref' and src[1][0] == 'table':
+            out.append((False, any(src[1] in spec_factor_tables(q) for q in seen)))
+        elif src[0] == 'ref':
+            statement(src[1])
+        else:
+            statement(src)
+
+    def statement(s):
+        if s[0] == 'set':
+            statement(s[1])
+            statement(s[2])
+        elif s[0] == 'query':
+            pre = [s[3]] if s[3] is not None else []
+            tree(s[1], pre, [], pre)
+        else:
+            raise ValueError(f'not a statement: {s[0]}')
+
+    statement(stmt)
+    return out
+
+
+def nested_statements(stmt, base: int = 0) -> tuple:
+    """([(nested statement, index of its first scan in the whole statement)], number of scans of `stmt`): the
+    statements referenced inside `stmt` and the sides of set operations, each a query context (or several) of its own"""
+    found = []
+    if stmt[0] == 'set':
+        sub, n1 = nested_statements(stmt[1], base)
+        found += [(stmt[1], base)] + sub
+        sub, n2 = nested_statements(stmt[2], base + n1)
+        found += [(stmt[2], base + n1)] + sub
+        return found, n1 + n2
+    off = base
+    for leaf in leaves(stmt[1]):
+        if leaf[0] == 'table' or (leaf[0] == 'ref' and leaf[1][0] == 'table'):
+            off += 1
+        else:
+            inner = leaf[1] if leaf[0] == 'ref' else leaf
+            sub, n = nested_statements(inner, off)
+            found += [(inner, off)] + sub
+            off += n
+    return found, off - base
 
 
 def flatten_or(f) -> list:
@@ -390,6 +473,14 @@ def drive(task) -> dict:
         out['lazy'] = {k: sorted(v) for k, v in impl.lazy_columns().items()}
     except Exception as e:  # pylint: disable=broad-except
         out['lazy'] = type(e).__name__
+    # every nested statement parsed on its own (its query contexts must be offered the same hints there)
+    out['nested'] = []
+    try:
+        for inner, offset in nested_statements(impl.stored)[0][:6]:
+            status, hints = Impl(inner).hints()
+            out['nested'].append((offset, status, hints))
+    except Exception as e:  # pylint: disable=broad-except
+        out['nested'] = type(e).__name__
     for db in dbs:
         ignored, ncalls = impl.execute(db, 'ignore')
         run = {'db': db, 'ignore': ignored, 'ncalls': ncalls, 'both': ignored, 'cols': ignored, 'culprit': None}
@@ -646,6 +737,48 @@ def _corpus():
                       [('ord', E(a, 'id'), 'asc')])),
         ('set', ('set', Q(a, [E(a, 'x')], X('gt', E(a, 'x'), L(1))), Q(a, [E(a, 'x')], X('gt', E(a, 'y'), L(2))), 'union')),
     ])
+    onab = X('eq', E(a, 'id'), E(b, 'aid'))
+    bc = J(b, c, 'left', X('eq', E(c, 'bid'), E(b, 'id')))
+    CORPUS.extend([
+        # outer joins: factors of the ON condition for the optional side (harmless), for the preserved side (C14-F1),
+        # conditions from above on either side, nesting, right / full joins
+        ('left-join-on-right', Q(J(a, b, 'left', X('and', onab, X('gt', E(b, 'z'), L(1)))), [E(a, 'x'), E(b, 'z')])),
+        ('left-join-where-left', Q(J(a, b, 'left', onab), [E(a, 'x'), E(b, 'z')], X('gt', E(a, 'x'), L(1)))),
+        ('right-join-on-left', Q(J(a, b, 'right', X('and', onab, X('gt', E(a, 'x'), L(1)))), [E(a, 'x'), E(b, 'z')])),
+        ('right-join-on-right', Q(J(a, b, 'right', X('and', onab, X('gt', E(b, 'z'), L(1)))), [E(a, 'x'), E(b, 'z')])),
+        ('right-join-isnull', Q(J(a, b, 'right', onab), [E(a, 'x'), E(b, 'z')], X('isnull', E(a, 'x')))),
+        ('full-join-on-left', Q(J(a, b, 'full', X('and', onab, X('gt', E(a, 'x'), L(1)))), [E(a, 'x'), E(b, 'z')])),
+        ('full-join-on', Q(J(a, b, 'full', X('and', onab, X('gt', E(b, 'z'), L(1)))), [E(a, 'x'), E(b, 'z')])),
+        ('full-join-where', Q(J(a, b, 'full', onab), [E(a, 'x'), E(b, 'z')], X('or', X('isnull', E(a, 'x')), X('isnull', E(b, 'z'))))),
+        ('left-nested-left', Q(J(a, bc, 'left', X('and', onab, X('isnull', E(c, 'w')))), [E(a, 'x'), E(b, 'z'), E(c, 'w')],
+                               X('gt', E(a, 'y'), L(0)))),
+        ('inner-above-left', Q(J(J(a, b, 'left', onab), c, 'inner', X('and', X('eq', E(c, 'bid'), E(b, 'id')), X('notnull', E(b, 'z')))),
+                               [E(a, 'x'), E(c, 'w')], X('gt', E(a, 'x'), L(0)))),
+        ('inner-below-left', Q(J(a, J(b, c, 'inner', X('and', X('eq', E(c, 'bid'), E(b, 'id')), X('gt', E(c, 'w'), L(0)))), 'left', onab),
+                               [E(a, 'x'), E(c, 'w')], X('isnull', E(c, 'w')))),
+        # scans through references: before / after the factor of the table is registered, two references, reference on
+        # the optional side of an outer join
+        ('alias-on-factor', Q(J(r, a, 'inner', X('and', X('eq', E(r, 'x'), E(a, 'x')), X('gt', E(a, 'x'), L(1)))), [E(a, 'x'), E(r, 'y')])),
+        ('alias-late-factor', Q(J(r, J(a, b, 'inner', X('and', onab, X('gt', E(a, 'x'), L(1)))), 'inner', X('eq', E(r, 'x'), E(b, 'z'))),
+                                [E(r, 'x'), E(a, 'y')])),
+        ('two-references', Q(J(r, ('ref', a, 's'), 'inner', X('lt', E(r, 'x'), E(('ref', a, 's'), 'y'))),
+                             [E(r, 'g'), E(('ref', a, 's'), 'id')], X('gt', E(r, 'x'), L(0)))),
+        ('alias-left-join', Q(J(a, r, 'left', X('eq', E(a, 'id'), E(r, 'g'))), [E(a, 'x'), E(r, 'x')], X('gt', E(a, 'x'), L(1)))),
+        # columns: grouping without HAVING, ordering only, columns used only through a reference / a referenced query
+        ('group-no-having', Q(ab, [X('count', E(b, 'z'))], None, [E(a, 'g')])),
+        ('group-having', Q(ab, [X('count', E(b, 'z'))], None, [E(a, 'g')], X('gt', X('count', E(a, 'y')), L(0)))),
+        ('order-only', Q(a, [E(a, 'x')], None, [], None, [('ord', E(a, 'y'), 'desc')])),
+        ('reference-star', Q(r, [], X('gt', E(r, 'y'), L(0)))),
+    ])
+    low = ('ref', Q(a, [('alias', E(a, 'id'), 'k'), ('alias', E(a, 'x'), 'v')], X('lt', E(a, 'x'), L(2))), 'low')
+    top = ('ref', Q(a, [('alias', E(a, 'id'), 'k'), ('alias', E(a, 'y'), 'v')], X('gt', E(a, 'g'), L(0))), 'top')
+    CORPUS.extend([
+        # several query contexts scanning one table
+        ('two-contexts', Q(J(low, top, 'inner', X('eq', E(low, 'k'), E(top, 'k'))), [E(low, 'v'), E(top, 'v')])),
+        ('two-contexts-outer', Q(J(low, top, 'left', X('eq', E(low, 'k'), E(top, 'k'))), [E(low, 'v'), E(top, 'v')], X('isnull', E(top, 'v')))),
+        ('context-and-direct', Q(J(a, low, 'inner', X('eq', E(a, 'id'), E(low, 'k'))), [E(a, 'y'), E(low, 'v')], X('gt', E(a, 'g'), L(1)))),
+        ('set-same-table', ('set', Q(a, [E(a, 'x')], X('gt', E(a, 'x'), L(1))), Q(r, [E(r, 'y')], X('lt', E(r, 'g'), L(2))), 'union')),
+    ])
     q = ('ref', Q(a, [('alias', E(a, 'x'), 'c0'), ('alias', E(a, 'y'), 'c1')], X('gt', E(a, 'x'), L(1))), 'q')
     CORPUS.append(('nested-join', Q(J(q, b, 'inner', X('eq', E(q, 'c0'), E(b, 'z'))), [E(q, 'c1'), E(b, 'x')], X('gt', E(b, 'x'), L(1)))))
     return CORPUS
@@ -659,8 +792,10 @@ class C14(fw.Check):
             'self-joins, references to nested queries) with inner/cross/left/right/full joins, equality and inequality '
             'join conditions optionally and/or-combined with predicates, prefilters = and/or/not trees (depth <= 3) of '
             'comparisons / IS NULL over one or several origins, plain / all-features / grouped selections, having, '
-            'ordering; plus the shared dslgen statements (hints and columns only). Every statement is parsed by the '
-            'real parser (recorded generate_table calls compared with the model, columns oracle, lazy._Columns) and '
+            'ordering; three-table outer-join skeletons (both nestings x all pairs of join kinds x IS NULL / NOT NULL prefilters); '
+            'plus the shared dslgen statements (hints and columns only). Every statement is parsed by the '
+            'real parser (recorded generate_table calls compared with the variant of the model under test, columns oracle, '
+            'context oracle, lazy._Columns) and '
             'executed on SQLite over 2 (thorough 3) random table contents (values -2..3 and NULL, 0..6 rows) ignoring / '
             'honouring the hints; the model denotation is run on the same data for plain projections. A case is distinct '
             'by (statement, data) and non-trivial when some scan is offered a row filter.')
@@ -708,6 +843,25 @@ class C14(fw.Check):
                 self.violate(f'lazy._Columns.extract offers {sorted(lazy.get(name, ()))} for table {name}, the statement uses '
                              f'{sorted(need)}', {'kind': 'lazy-columns', 'stmt': ast}, SIG_LAZY, {'label': label})
 
+    def _context_oracle(self, ast, hints, nested, label: str):
+        """a nested statement (referenced query, side of a set operation) is offered, inside the statement, exactly the
+        hints it is offered when parsed on its own: hints depend only on the query context that scans the table"""
+        if not nested:
+            return
+        if isinstance(nested, str):
+            self.notes.append(f'nested statements of {label} could not be parsed on their own: {nested}')
+            return
+        whole = canon_hints(hints)
+        for offset, status, inner in nested:
+            if status != 'ok':
+                continue
+            alone = canon_hints(inner)
+            if whole[offset:offset + len(alone)] != alone:
+                self.violate(f'scans {offset}..{offset + len(alone) - 1} belong to a nested statement which on its own is offered '
+                             f'{alone}, inside the statement {whole[offset:offset + len(alone)]}: the hints of a scan depend on '
+                             f'another query context', {'kind': 'columns', 'stmt': ast}, SIG_CTX, {'label': label})
+                return
+
     def _exec_oracle(self, ast, run: dict, label: str):
         """honouring == ignoring on this data (`run` = what `drive` observed on one table content)"""
         ignored, both, db = run['ignore'], run['both'], run['db']
@@ -727,10 +881,13 @@ class C14(fw.Check):
         spec = scans_spec(ast)
         sig, name = SIG_FILTER, '?'
         if k is not None and k < len(spec) and len(spec) == run['ncalls']:
-            name, _, via_ref, ctx, leaf = spec[k]
-            if via_ref:
+            name = spec[k][0]
+            # one of the listed findings only if the culprit scan itself lies in the finding's region (computed from
+            # the findings' text on the AST) and the code under test does not claim to be repaired
+            f1, f2 = scan_regions(ast)[k]
+            if self.variant != 'fixed' and f2:
                 sig = SIG_ALIAS
-            elif outer_ancestor(contexts(ast)[ctx][1], leaf):
+            elif self.variant != 'fixed' and f1:
                 sig = SIG_OUTER
         if not isinstance(both, list):
             self.violate(f'the row filter offered for table {name} (scan {k}) cannot be evaluated on that table alone: {both[1]}',
@@ -747,9 +904,9 @@ class C14(fw.Check):
             self.case(('unbuildable', obs['ast']), f'{label} unbuildable:{obs["unbuildable"]}', nontrivial=False)
             return
         stored, status, hints = obs['stored'], obs['status'], obs['hints']
-        for op in (('hints', 'strict'), ('hints', 'lenient'), ('lazy',), ('needs',), ('scoped',)):
+        for op in MODEL_OPS:
             lines.append(sexp.dumps(op + (stored,)))
-        entry = {'label': label, 'ast': stored, 'status': status, 'hints': hints, 'at': len(lines) - 5, 'exec': [],
+        entry = {'label': label, 'ast': stored, 'status': status, 'hints': hints, 'at': len(lines) - len(MODEL_OPS), 'exec': [],
                  'lazy': obs.get('lazy'), 'viol': (0, 0)}
         pending.append(entry)
         filtered = status == 'ok' and any(p for _, _, p in hints)
@@ -762,6 +919,7 @@ class C14(fw.Check):
         before = len(self.violations)
         entry['viol'] = (before, before)
         self._columns_oracle(stored, hints, obs['lazy'], label)
+        self._context_oracle(stored, hints, obs.get('nested'), label)
         sample = {'statement': sexp.dumps(stored)[:300], 'hints': canon_hints(hints)}
         if not obs['runs']:
             self.case(('stmt', stored), shape, nontrivial=filtered, sample=sample)
@@ -772,13 +930,15 @@ class C14(fw.Check):
             self._exec_oracle(stored, run, label)
             if tie and isinstance(run['ignore'], list):
                 for mode in ('ignore', 'both'):
-                    lines.append(sexp.dumps(('exec', mode, stored, db_sexp(run['db']))))
+                    lines.append(sexp.dumps(('exec', 'fixed' if self.variant == 'fixed' else 'current', mode, stored,
+                                             db_sexp(run['db']))))
                 entry['exec'].append((len(lines) - 2, run))
         entry['viol'] = (before, len(self.violations))
 
     def _compare(self, pending: list, answers: list):
         for entry in pending:
-            strict, lenient = answers[entry['at']], answers[entry['at'] + 1]
+            at = entry['at']
+            strict = answers[at + A_STRICT]
             case = {'stmt': entry['ast'], 'label': entry['label']}
             if entry['status'] == 'error':
                 if entry['label'] == 'dslgen' and entry['hints'] != 'AttributeError':
@@ -788,39 +948,59 @@ class C14(fw.Check):
                         self.diverge('parser raised AttributeError, the model offers hints', case, 'AttributeError', strict)
                 else:
                     self.diverge('parser raised', case, entry['hints'], strict)
+                    if entry['label'] != 'dslgen':
+                        # a statement of the property's quantifier for which the model (hence the theorems) has hints:
+                        # no hints are offered at all - the statement itself is the failing input
+                        self.violate(f'the parser raises {entry["hints"]} instead of offering hints for a statement of the '
+                                     f'property\'s quantifier', {'kind': 'raises', 'stmt': entry['ast']}, SIG_RAISES,
+                                     {'label': entry['label']})
                 continue
             mine = canon_hints(entry['hints'])
-            ans = sexp.loads(lenient)
-            if not isinstance(ans, list) or ans[0] != 'ok':
-                self.diverge('model has no hints for a statement the parser accepts', case, mine, lenient)
+            modelled = {}
+            for variant, pos in (('current', A_CURRENT), ('fixed', A_FIXED)):
+                ans = sexp.loads(answers[at + pos])
+                modelled[variant] = canon_hints([(h[1], h[2], h[3]) for h in ans[1:]]) \
+                    if isinstance(ans, list) and ans[0] == 'ok' else answers[at + pos]
+            if self.variant == 'mixed':  # a tree with one of the two repairs: either model, statement by statement
+                if mine not in modelled.values():
+                    self.diverge('generate_table arguments (neither variant of the model)', case, mine, modelled)
+            elif not isinstance(modelled[self.variant], list):
+                self.diverge('model has no hints for a statement the parser accepts', case, mine, modelled[self.variant])
                 continue
-            theirs = canon_hints([(h[1], h[2], h[3]) for h in ans[1:]])
-            if mine != theirs:
-                self.diverge('generate_table arguments', case, mine, theirs)
+            elif mine != modelled[self.variant]:
+                self.diverge(f'generate_table arguments ({self.variant} variant of the model)', case, mine, modelled[self.variant])
             # lazy._Columns.extract vs the model's lazyS
             if isinstance(entry['lazy'], dict):
-                modelled: dict = {}
-                for t, c in sexp.loads(answers[entry['at'] + 2])[1:]:
-                    modelled.setdefault(t, set()).add(c)
-                modelled = {t: sorted(cs) for t, cs in modelled.items()}
-                if modelled != {t: sorted(cs) for t, cs in entry['lazy'].items() if cs}:
-                    self.diverge('lazy._Columns.extract', case, entry['lazy'], modelled)
+                lazy: dict = {}
+                for t, c in sexp.loads(answers[at + A_LAZY])[1:]:
+                    lazy.setdefault(t, set()).add(c)
+                lazy = {t: sorted(cs) for t, cs in lazy.items()}
+                if lazy != {t: sorted(cs) for t, cs in entry['lazy'].items() if cs}:
+                    self.diverge('lazy._Columns.extract', case, entry['lazy'], lazy)
             # the specification functions of the theorems vs the independent ones of the oracles
             spec = scans_spec(entry['ast'])
-            needs = [sorted(set(n)) for n in sexp.loads(answers[entry['at'] + 3])[1:]]
-            if needs != [sorted(n) for _, n, *_ in spec]:
-                self.diverge('spec `needs` (Lean) vs used columns per scan (oracle)', case, [sorted(n) for _, n, *_ in spec], needs)
-            scoped = sexp.loads(answers[entry['at'] + 4])
-            mine_scoped = ['ok', 'false' if has_outer(entry['ast']) else 'true', 'false' if has_alias(entry['ast']) else 'true']
+            wanted = [sorted(n) for _, n, *_ in spec]
+            for pos, name in ((A_NEEDS, 'needs'), (A_USES, 'usesIn')):
+                got = [sorted(set(n)) for n in sexp.loads(answers[at + pos])[1:]]
+                if got != wanted:
+                    self.diverge(f'spec `{name}` (Lean) vs used columns per scan (oracle)', case, wanted, got)
+            scoped = sexp.loads(answers[at + A_SCOPED])  # ok innerOnly safe-current grammarScoped shaped safe-fixed
+            regions = scan_regions(entry['ast'])
+            mine_scoped = ['ok', 'false' if has_outer(entry['ast']) else 'true',
+                           'false' if any(f1 or f2 for f1, f2 in regions) else 'true']
             if entry['label'] != 'dslgen' and scoped[:3] != mine_scoped:
-                self.diverge('hypotheses innerOnly / wellScoped (Lean) vs outer-join / aliased-scan detection (oracle)', case,
+                self.diverge('hypotheses innerOnly / safe (Lean) vs outer-join detection / regions of the findings (oracle)', case,
                              mine_scoped, scoped)
-            if entry['label'] != 'dslgen' and scoped[4] != 'true':
-                self.diverge('generated statement is not `shaped`', case, 'true', scoped)
-            proved = scoped[2] == 'true' and scoped[3] == 'true'  # hypotheses of C14_filter_partial_outer
+            if entry['label'] != 'dslgen' and scoped[3:] != ['true', 'true', 'true']:
+                self.diverge('generated statement is not `grammarScoped` / `shaped`, or the repaired model is not `safe`', case,
+                             'true', scoped)
+            # hypotheses of C14_filter_partial (code that exists) / C14_filter_fixed (repaired code)
+            proved = scoped[3] == 'true' and (self.variant == 'fixed' or scoped[2] == 'true')
             self.extra['in_proved_fragment'] = self.extra.get('in_proved_fragment', 0) + int(proved)
             self.extra['outer_joins_in_proved_fragment'] = self.extra.get('outer_joins_in_proved_fragment', 0) + \
                 int(proved and has_outer(entry['ast']))
+            self.extra['aliased_scans_in_proved_fragment'] = self.extra.get('aliased_scans_in_proved_fragment', 0) + \
+                int(proved and has_alias(entry['ast']))
             if proved:
                 # a filter violation here contradicts the theorem: never to be taken for one of the listed findings
                 lo, hi = entry['viol']
@@ -829,11 +1009,13 @@ class C14(fw.Check):
                     if v.signature in (SIG_OUTER, SIG_ALIAS):
                         self.violations[i] = v._replace(signature=SIG_FILTER,
                                                         what=v.what + ' (statement is in the fragment proved safe)')
-            for at, run in entry['exec']:
+            for at_exec, run in entry['exec']:
                 for offset, mode in enumerate(('ignore', 'both')):
-                    modelled, real = model_rows(answers[at + offset]), run[mode]
-                    if isinstance(real, list) and modelled != real:
-                        self.diverge(f'row-level denotation ({mode} back-end) vs SQLite', {**case, 'db': run['db']}, real, modelled)
+                    if self.variant == 'mixed' and mode == 'both':
+                        continue
+                    rows, real = model_rows(answers[at_exec + offset]), run[mode]
+                    if isinstance(real, list) and rows != real:
+                        self.diverge(f'row-level denotation ({mode} back-end) vs SQLite', {**case, 'db': run['db']}, real, rows)
 
     def _batch(self, items: list, execs: bool = True):
         """items: [(label, ast, [dbs])] — driven on the real code in worker processes, judged here"""
@@ -845,8 +1027,28 @@ class C14(fw.Check):
         self._compare(pending, self.model(lines))
 
     # ---- streams -----------------------------------------------------------------------------------------------------
+    variant = 'current'
+
+    def _probe_variant(self) -> str:
+        """which of the two modelled variants of the parser is under test: the code that exists, or the code with
+        fixes/C14-outer-join-and-scan-segments.diff applied?  Decided once per run on the two witnesses of the findings
+        (what is offered, not how): is the preserved side of `A LEFT JOIN B ON A.x > 1` offered a filter, is the scan
+        behind `r` in `A CROSS JOIN A AS r WHERE A.x > 1`?"""
+        a, b, r = TA, TB, ('ref', TA, 'r')
+        outer = drive(('probe', Q(J(a, b, 'left', X('gt', E(a, 'x'), L(1))), [E(a, 'x')]), []))
+        alias = drive(('probe', Q(J(a, r, 'cross', None), [E(a, 'x'), E(r, 'x')], X('gt', E(a, 'x'), L(1))), []))
+        try:
+            repaired = (not outer['hints'][0][2], not alias['hints'][1][2])
+        except Exception:  # pylint: disable=broad-except
+            return 'current'  # the probes do not even parse: compared with (and reported against) the code that exists
+        return 'fixed' if all(repaired) else 'current' if not any(repaired) else 'mixed'
+
     def correspondence(self):
         adapters()
+        self.variant = self._probe_variant()
+        self.extra['parser_variant'] = self.variant
+        self.notes.append(f'parser variant under test: {self.variant}' + (
+            '' if self.variant == 'current' else ' (outer joins / scans through references repaired: no statement is exempt)'))
         rng = self.rng
         gen = Gen(rng)
         ndb = self.n(2, 3)
@@ -879,6 +1081,7 @@ class C14(fw.Check):
             items.append(('dslgen', ast, []))
         self._batch_broad(items)
         self._skeleton_stream(gen, ndb)
+        self._outer_stream(gen)
         self._malformed()
         if not self.quick:
             self._planted()
@@ -914,13 +1117,45 @@ class C14(fw.Check):
             items = self.rng.sample(items, 70)
         self._batch([(label, ast, [gen.db() for _ in range(2)]) for label, ast in items])
 
+    def _outer_items(self) -> list:
+        """join trees of three tables in both nestings x every pair of join kinds, plain equality conditions optionally
+        with one single-table conjunct, and a prefilter that accepts or rejects NULLs of one table: the shapes on which
+        the hints of outer joins can go wrong (side preserved / NULL-extended, nesting, conditions from above)"""
+        a, b, c = TA, TB, TC
+        ab, bc = X('eq', E(a, 'id'), E(b, 'aid')), X('eq', E(c, 'bid'), E(b, 'id'))
+        pres = [None] + [X(op, col) for col in (E(a, 'x'), E(b, 'z'), E(c, 'w')) for op in ('isnull', 'notnull')] + \
+            [X('gt', E(a, 'x'), L(0)), X('le', E(c, 'w'), L(1)), X('or', X('isnull', E(b, 'z')), X('gt', E(b, 'z'), L(1)))]
+        extras = [None, X('gt', E(a, 'y'), L(0)), X('le', E(b, 'x'), L(1)), X('ge', E(c, 'x'), L(1)), X('isnull', E(c, 'w'))]
+        items = []
+        kinds = ('inner', 'left', 'right', 'full')
+        for k1 in kinds:
+            for k2 in kinds:
+                for extra in extras:
+                    def on(cond, own):
+                        ok = extra is not None and feat_elems(extra)[0][0] in own
+                        return X('and', cond, extra) if ok else cond
+                    shapes = (('deep-right', J(a, J(b, c, k2, on(bc, (b, c))), k1, on(ab, (a,)))),
+                              ('deep-left', J(J(a, b, k1, on(ab, (a, b))), c, k2, on(bc, (c,)))))
+                    for name, src in shapes:
+                        for pre in pres:
+                            items.append((f'outer3:{name}:{k1}-{k2}', Q(src, [E(a, 'x'), E(b, 'z'), E(c, 'w')], pre)))
+        return items
+
+    def _outer_stream(self, gen):
+        items = self._outer_items()
+        if self.quick:
+            items = self.rng.sample(items, 90)
+        self._batch([(label, ast, [gen.db() for _ in range(2)]) for label, ast in items])
+
     def _planted(self):
         """self-test of the comparison: a deliberately wrong model line (another literal) must come out different"""
         a = TA
         real = Q(a, [E(a, 'x')], X('gt', E(a, 'x'), L(1)))
         wrong = Q(a, [E(a, 'x')], X('gt', E(a, 'x'), L(2)))
         obs = drive(('planted', real, []))
-        ans = sexp.loads(self.model([sexp.dumps(('hints', 'lenient', wrong))])[0])
+        ans = sexp.loads(self.model([sexp.dumps(('hints', 'fixed' if self.variant == 'fixed' else 'current', 'lenient', wrong))])[0])
+        if not isinstance(ans, list) or ans[0] != 'ok':
+            raise fw.MachineryError(f'planted-divergence self-test: the model does not answer ({ans})')
         if obs['status'] == 'ok' and canon_hints(obs['hints']) == canon_hints([(h[1], h[2], h[3]) for h in ans[1:]]):
             raise fw.MachineryError('planted divergence (literal changed in the model line) was not detected')
         self.notes.append('planted-divergence self-test: detected')
@@ -951,6 +1186,7 @@ class C14(fw.Check):
                 continue
             n += 1
             self._columns_oracle(obs['stored'], obs['hints'], obs['lazy'], label)
+            self._context_oracle(obs['stored'], obs['hints'], obs.get('nested'), label)
             for run in obs['runs']:
                 self._exec_oracle(obs['stored'], run, label)
         return n
@@ -959,13 +1195,20 @@ class C14(fw.Check):
         """re-run the diverging statements (and fresh ones of the provable fragment) on more data through the oracles"""
         seeds = [tuplify(d.case['stmt']) for d in self.divergences if isinstance(d.case, dict) and 'stmt' in d.case]
         seeds = [s for s in seeds if s[0] in ('query', 'set') and all(t in TABLES for t in _tables_of(s))]
-        gen = Gen(self.rng, outer=0.0, alias=0.0)
+        # the fragment in which every filter violation is a new one: no outer joins / aliased scans for the code that
+        # exists, everything for the repaired code
+        gen = Gen(self.rng, outer=0.3, alias=0.15) if self.variant == 'fixed' else Gen(self.rng, outer=0.0, alias=0.0)
+        extra = [ast for _, ast in self._outer_items()] if self.variant == 'fixed' else []
+        if self.quick and extra:
+            extra = self.rng.sample(extra, 600)
         tasks = [('search', ast, [gen.db() for _ in range(6)]) for ast in
-                 list(dict.fromkeys(seeds))[:60] + [gen.statement() for _ in range(self.n(300, 2000))]]
+                 list(dict.fromkeys(seeds))[:60] + [gen.statement() for _ in range(self.n(300, 2000))] + extra]
         tried = self._oracles_only('search', tasks)
         self.notes.append(f'failing-input search ({reason}): {tried} statements x 6 table contents through the oracles')
 
     def replay_finding(self, entry):
+        if 'parser_variant' not in self.extra:  # `--replay` without a correspondence run
+            self.variant = self.extra['parser_variant'] = self._probe_variant()
         w = entry['witness']
         ast = tuplify(w['stmt'])
         db = {k: [tuple(r) for r in v] for k, v in w.get('db', {}).items()}
@@ -974,9 +1217,10 @@ class C14(fw.Check):
             return None
         if obs['status'] != 'ok':
             # the parser refuses a statement it used to accept (fixed entries of kind `raises`)
-            return fw.Violation(f'the parser raises {obs["hints"]} instead of offering hints', w, 'parser-raises')
+            return fw.Violation(f'the parser raises {obs["hints"]} instead of offering hints', w, SIG_RAISES)
         before = len(self.violations)
         self._columns_oracle(obs['stored'], obs['hints'], obs['lazy'], 'replay')
+        self._context_oracle(obs['stored'], obs['hints'], obs.get('nested'), 'replay')
         for run in obs['runs']:
             self._exec_oracle(obs['stored'], run, 'replay')
         found = self.violations[before:]
